@@ -303,7 +303,27 @@ def standin_sweeps_roundtrip(tier, seed):
         b = [{str(k): num(v) for k, v in r.param_dict.items()} for r in back]
         if len(a) != len(b) or any(set(x) != set(y) or any(abs(x[k] - y[k]) > 1e-6 * max(1, abs(x[k])) for k in x) for x, y in zip(a, b)):
             fails.append(dict(args=dict(sweep=repr(s), back=repr(back)), failed="sweep-roundtrip", clause="sweep_from_proto(sweep_to_proto(s)) enumerates different assignments"))
-    return dict(function="cirq-google/cirq_google/api/v2/sweeps.py", case="sweep-roundtrip", bound="18 sweep shapes incl. empty, single-point linspace, nested product/zip, concat, zip-longest, values with (mixed) physical units",
+    # the older v1 message (products of zips of single sweeps): round trip or clean refusal
+    from cirq_google.api import v1
+
+    for s in sweeps:
+        if tunits is not None and any(isinstance(v, tunits.Value) for r in list(s)[:1] for v in r.param_dict.values()):
+            continue
+        try:
+            back = v1.sweep_from_proto(v1.sweep_to_proto(s, repetitions=7))
+        except (ValueError, TypeError):
+            continue
+        except Exception as ex:
+            if isinstance(s, cirq.Points) and len(s) == 0:
+                continue
+            fails.append(dict(args=dict(sweep=repr(s)), failed="v1-sweep-raised", clause=f"v1 sweep_to_proto/sweep_from_proto raised {ex!r} (neither a round trip nor a clean rejection)"))
+            continue
+        cases += 1
+        a = [{str(k): float(v) for k, v in r.param_dict.items()} for r in s]
+        b = [{str(k): float(v) for k, v in r.param_dict.items()} for r in back]
+        if len(a) != len(b) or any(set(x) != set(y) or any(abs(x[k] - y[k]) > 1e-6 * max(1, abs(x[k])) for k in x) for x, y in zip(a, b)):
+            fails.append(dict(args=dict(sweep=repr(s), back=repr(back)), failed="v1-sweep-roundtrip", clause="v1.sweep_from_proto(v1.sweep_to_proto(s)) enumerates different assignments"))
+    return dict(function="cirq-google/cirq_google/api/v2/sweeps.py", case="sweep-roundtrip", bound="18 sweep shapes incl. empty, single-point linspace, nested product/zip, concat, zip-longest, values with (mixed) physical units; the unit-free ones also through the v1 message",
                 cases=cases, distinct=cases, failures=len(fails), exhaustive=False, _fails=fails[:3])
 standin_sweeps_roundtrip.prop = "C16"
 def standin_run_contexts(tier, seed):
